@@ -5,6 +5,7 @@ line (first on sys.path) and a *task module* (e.g. checks.c36) once, then forks 
 request; each worker connects back to the controller over a Unix socket.  The task module provides
 
     wk_preload()         optional, in the zygote: import everything heavy
+    wk_warm()            optional, in a fresh worker after 'ready': touch what the first step would otherwise fault in
     wk_install(api)      in the worker: install hooks; a hook calls api.point(kind, info) at every scheduling point
                          and api.flag(name) to raise a flag (e.g. 'blocked') that travels with the next event
     wk_run(arg) -> json  the operation whose steps are interleaved (e.g. construct a Session)
@@ -116,6 +117,7 @@ def _watch_parent(ppid):
 
 
 def _worker_loop(task, sockpath, token, ppid):
+    signal.signal(signal.SIGCHLD, signal.SIG_DFL)
     s = socket.socket(socket.AF_UNIX, socket.SOCK_STREAM)
     s.connect(sockpath)
     api = _WorkerApi(s.makefile("r"), s.makefile("w"))
@@ -128,6 +130,8 @@ def _worker_loop(task, sockpath, token, ppid):
     except BaseException:
         api.send({"ev": "fatal", "token": token, "pid": os.getpid(), "trace": traceback.format_exc()})
         os._exit(4)
+    if hasattr(task, "wk_warm"):
+        task.wk_warm()               # all workers warm up in parallel while the controller goes on spawning
     while True:
         cmd = api.recv()
         c = cmd["cmd"]
